@@ -101,7 +101,15 @@ func c11Round(rng *Rng, G, perG int, inject bool) (bad []c11Mismatch, calls int,
 			case 11:
 				st.startAt = Pick(rng, []int{-1, 0, len(st.text)})
 			}
-			want := c12Exec(specs[st.re].compile(), st, repls, ngroups[st.re]).canon
+			// expected result: the same call on a fresh Regexp, computed sequentially.  On the timed Regexp the
+			// expectation for a non-catastrophic input is computed without the deadline (a loaded machine can make
+			// a wall-clock timeout fire in the sequential run as well); a late timeout of the concurrent call is
+			// tolerated and counted, any other difference is a violation.
+			ref := specs[st.re].compile()
+			if specs[st.re].timeout != 0 && st.text != c12Catastrophic {
+				ref.MatchTimeout = regexp2.DefaultMatchTimeout
+			}
+			want := c12Exec(ref, st, repls, ngroups[st.re]).canon
 			jobs[g] = append(jobs[g], c11Job{st: st, want: want, shared: rng.Chance(70)})
 		}
 	}
